@@ -23,7 +23,7 @@ import diskcache.fanout as fanout_mod
 ID = 'C13'
 COQ_PROP = 'C13'
 LEVEL = 'proof'
-TRANSLATE = ['fanout', 'disk', 'format']     # format: __getstate__ / __setstate__ / __init__ parameters (pickled handles)
+TRANSLATE = ['fanout', 'disk', 'format', 'sql']     # format: __getstate__ / __setstate__ / __init__ parameters (pickled handles)
 TRUSTED = [
     'coq/model/Fanout.v: the dictionary-with-expiry that stands for one Cache (written from the documentation; Cache itself is C03) and the '
     'interpreter of the generated FanoutCache table; model shard/hash/shard_dir/adler32 compared with the implementation on every generated key',
@@ -34,6 +34,9 @@ TRUSTED = [
 ASSUMPTIONS = [
     'no eviction and no culling interferes with the comparison against one cache (size limit large, cull_limit 0 in the equivalence stream): a shard '
     'culls against its own share of the limit, which the property allows',
+    'bulk removals (1c): what cull() removes FOR SIZE is compared with one Cache per shard holding size_limit / shards (the division the property '
+    'states), and with the unsharded cache only while no shard is above its share and the total is not above the limit; every write advances the '
+    'clock, so store and access times are distinct (least-frequently-used ties are broken by row order on both sides)',
     'timeouts are injected at the shard-method boundary for _remove; real lock timeouts are C14',
     "unencodable text and streams are outside the key domain; float('nan') (the canonical quiet NaN) is inside it since the repair of C02-F2: "
     'Disk.put pickles it, so it is routed by adler32 of its pickle like every pickled key (C13_routing_nan); the recorded routing table '
@@ -710,6 +713,259 @@ def monitor_equivalence(ctx, res, nhist, nops, hist, modelcases=None):
 
 
 # ---------------------------------------------------------------------------
+# bulk removals (cull / expire / evict / clear): every shard exactly once, each shard against its own share of the size limit
+
+
+BULK_POLICIES = ['least-recently-stored', 'least-recently-used', 'least-frequently-used', 'none']
+BULK_SHARE = 2 ** 18            # the share of the size limit one shard gets in the skewed scenarios (bytes)
+BULK_FILE = 40000               # a value of this many bytes is kept in a file (disk_min_file_size is 32768)
+BULK_OPS = ('cull', 'expire', 'evict', 'clear')
+
+
+def bulk_key_pool(disk, n, per_shard=30):
+    """keys of several classes, grouped by the shard they are routed to (Disk.hash % shards; monitor_placement checks that
+    routing on its own by watching which database receives the row)"""
+    per = {i: [] for i in range(n)}
+    j = 0
+    while any(len(v) < per_shard for v in per.values()):
+        for k in (j, 'k%d' % j, b'k%d' % j, (j, 'x'), j + 0.5):
+            i = core.Disk.hash(disk, k) % n
+            if len(per[i]) < per_shard:
+                per[i].append(k)
+        j += 1
+    return per
+
+
+def gen_bulk_case(rng, n, disk):
+    """Writes under the virtual clock (expiry times, tags, small inline values and values kept in files), spread evenly or skewed
+    towards a few shards so that those exceed their share while the total stays below the total limit, then cull() / expire() /
+    evict(tag) / clear(); possibly a second round."""
+    per = bulk_key_pool(disk, n)
+    scenario = rng.choice(['expired', 'expired', 'skew', 'skew', 'mixed', 'over'])
+    policy = rng.choice(BULK_POLICIES[:3] + BULK_POLICIES)
+    cull_limit = 0 if rng.random() < 0.8 else 10
+    total = 2 ** 30 if (scenario == 'expired' and rng.random() < 0.5) else BULK_SHARE * n
+    keys, steps = [], []
+
+    fresh = {i: 0 for i in range(n)}
+
+    def write(shard, size, ttl=None, tag=None, distinct=False):
+        pool = per[shard]
+        if distinct:                      # a key of that shard not used so far (while there is one): the writes add up
+            k = pool[fresh[shard] % len(pool)]
+            fresh[shard] += 1
+        else:
+            k = pool[rng.randrange(len(pool))]
+        if not any(val.same(k, x) for x in keys):
+            keys.append(k)
+        ki = [i for i, x in enumerate(keys) if val.same(k, x)][0]
+        steps.append({'op': 'set', 'k': ki, 'size': size, 'ttl': ttl, 'tag': tag, 'adv': rng.choice([0.25, 0.5, 1.0])})
+
+    for rnd in range(rng.choice([1, 1, 2])):
+        hot = rng.sample(range(n), min(n, rng.choice([1, 1, 2])))
+        if scenario in ('expired', 'mixed'):
+            for _ in range(rng.randrange(5, 14)):
+                write(rng.randrange(n), rng.choice([50, 300, 300, BULK_FILE]), rng.choice([None, 2.0, 2.0, 5.0, 20.0]), rng.choice(TAGS))
+        if scenario in ('skew', 'mixed'):
+            for h in hot:
+                for _ in range(rng.choice([8, 12, 17, 25])):
+                    write(h, BULK_FILE, rng.choice([None, None, None, 5.0]), rng.choice(TAGS), distinct=True)
+            for _ in range(rng.randrange(0, 4)):
+                write(rng.randrange(n), rng.choice([50, 300]), None, rng.choice(TAGS))
+        if scenario == 'over':
+            for i in range(n):
+                for _ in range(rng.choice([8, 12])):
+                    write(i, BULK_FILE, rng.choice([None, None, 5.0]), rng.choice(TAGS), distinct=True)
+        op = rng.choice(['cull', 'cull', 'cull', 'cull', 'expire', 'evict', 'clear'])
+        st = {'op': op, 'adv': rng.choice([0, 0, 3, 3, 6, 30]), 'retry': rng.random() < 0.3}
+        if op == 'evict':
+            st['tag'] = rng.choice(['t1', 't2', 't3'])
+        steps.append(st)
+        if op != 'cull' and rng.random() < 0.5:
+            steps.append({'op': 'cull', 'adv': rng.choice([0, 3]), 'retry': False})
+    return {'check': 'bulk', 'shards': n, 'scenario': scenario, 'policy': policy, 'cull_limit': cull_limit, 'size_limit': total,
+            'keys': [repr(k)[:40] for k in keys], 'keys_hex': [pickle.dumps(k, protocol=4).hex() for k in keys], 'steps': steps}
+
+
+def expired_rows(directory, now):
+    """rows whose expiry time lies BEFORE now (a row that expires at exactly `now` is invisible to lookups but is not removed by
+    Cache.expire / cull until later -- the unsharded cache behaves the same way, which the two comparisons establish)"""
+    con = sqlite3.connect(os.path.join(directory, 'cache.db'))
+    try:
+        return con.execute('SELECT COUNT(*) FROM Cache WHERE expire_time IS NOT NULL AND expire_time < ?', (now,)).fetchone()[0]
+    finally:
+        con.close()
+
+
+def tagged_rows(directory, tag):
+    con = sqlite3.connect(os.path.join(directory, 'cache.db'))
+    try:
+        return con.execute('SELECT COUNT(*) FROM Cache WHERE tag = ?', (tag,)).fetchone()[0]
+    finally:
+        con.close()
+
+
+def run_bulk(case, base=None):
+    """Three drivers of the same steps: the FanoutCache; the caches it stands for -- one diskcache.Cache per shard, each with
+    size_limit / shards, a key going to the one its routing names ('per-shard'); and ONE Cache with the whole limit ('single-cache',
+    compared as long as nothing was or is removed for size: while no shard is over its share and the one cache is not over the total,
+    and only with cull_limit 0, because a lazy cull at a write looks at one shard only).  Returned counts, len and the key sets
+    after every bulk removal must agree; besides, on the FanoutCache's own shards: the count is the number of rows that
+    disappeared, no row past its expiry time is left after cull / expire, no row with the tag after evict, none at all after clear, and after
+    cull no shard with an eviction policy is above its limit.  Returns (failure | None, record)."""
+    keys = [pickle.loads(bytes.fromhex(x)) for x in case['keys_hex']]
+    n = case['shards']
+    own = base is None
+    base = base or tempfile.mkdtemp(prefix='c13b-')
+    top = tempfile.mkdtemp(prefix='b-', dir=base)
+    settings = dict(eviction_policy=case['policy'], cull_limit=case['cull_limit'])
+    total = case['size_limit']
+    clock = instr.Clock(1000.25)
+    bad, record = None, []
+    opened = []
+    with instr.Installed(clock, extra_modules=[fanout_mod]):
+        try:
+            fc = diskcache.FanoutCache(os.path.join(top, 'f'), shards=n, size_limit=total, **settings)
+            opened.append(fc)
+            split = []
+            for i in range(n):
+                split.append(diskcache.Cache(os.path.join(top, 's%03d' % i), size_limit=total / n, **settings))
+                opened.append(split[-1])
+            one = diskcache.Cache(os.path.join(top, 'one'), size_limit=total, **settings)
+            opened.append(one)
+            one_ok = case['cull_limit'] == 0
+            for at, st in enumerate(case['steps']):
+                clock.advance(st.get('adv', 0))
+                now = clock.now
+                op = st['op']
+                if op == 'set':
+                    k = keys[st['k']]
+                    v = b'v' * st['size']
+                    i = core.Disk.hash(fc.disk, k) % n
+                    fc.set(k, v, expire=st['ttl'], tag=st['tag'], retry=True)
+                    split[i].set(k, v, expire=st['ttl'], tag=st['tag'], retry=True)
+                    one.set(k, v, expire=st['ttl'], tag=st['tag'], retry=True)
+                    continue
+                args = (st['tag'],) if op == 'evict' else ()
+                over = [i for i in range(n) if split[i].volume() > split[i].size_limit]
+                if op == 'cull' and case['policy'] != 'none' and (over or one.volume() > one.size_limit):
+                    one_ok = False              # something is removed for its size: which items depends on the division
+                before = len(fc)
+                vols = [s.volume() for s in fc._shards]
+                a = out(lambda: getattr(fc, op)(*args, retry=st['retry']))
+                b = ('val', sum(getattr(c, op)(*args, retry=st['retry']) for c in split))
+                c1 = out(lambda: getattr(one, op)(*args, retry=st['retry']))
+                got_keys = sorted(repr(ident(k)) for k in fc)
+                split_keys = sorted(repr(ident(k)) for c in split for k in c)
+                one_keys = sorted(repr(ident(k)) for k in one)
+                record.append((op, a, b, c1 if one_ok else None, len(got_keys), over))
+                ctxt = '%s(%s) at t=%r on %d shards (size_limit %d, i.e. %d per shard; policy %s; shard volumes before the call %r%s)' % (
+                    op, ', '.join(map(repr, args)), now, n, total, total // n, case['policy'], vols,
+                    '; over their share: %r' % over if over else '; no shard over its share')
+
+                def fail(kind, why):
+                    return {'at': at, 'op': op, 'kind': kind, 'why': ctxt + ': ' + why}
+                if not same_out(a, b):
+                    bad = fail('per-shard', 'FanoutCache returned %r, the shards run as %d separate caches return %r in total' % (a, n, b))
+                elif got_keys != split_keys:
+                    bad = fail('per-shard', 'FanoutCache keeps %d keys, the shards run as %d separate caches keep %d (first difference: %r)' % (
+                        len(got_keys), n, len(split_keys), sorted(set(got_keys) ^ set(split_keys))[:3]))
+                elif one_ok and not same_out(a, c1):
+                    bad = fail('single-cache', 'FanoutCache returned %r, a single Cache returned %r' % (a, c1))
+                elif one_ok and got_keys != one_keys:
+                    bad = fail('single-cache', 'FanoutCache keeps %d keys, a single Cache keeps %d (first difference: %r)' % (
+                        len(got_keys), len(one_keys), sorted(set(got_keys) ^ set(one_keys))[:3]))
+                else:
+                    dirs = [s.directory for s in fc._shards]
+                    if a[0] != 'val' or a[1] != before - len(fc):
+                        bad = fail('postcondition', 'returned %r, %d rows disappeared' % (a, before - len(fc)))
+                    elif op in ('cull', 'expire') and any(expired_rows(d, now) for d in dirs):
+                        bad = fail('postcondition', 'rows past their expiry time are left in shards %r' % ([i for i, d in enumerate(dirs) if expired_rows(d, now)],))
+                    elif op == 'evict' and any(tagged_rows(d, st['tag']) for d in dirs):
+                        bad = fail('postcondition', 'rows tagged %r are left in shards %r' % (st['tag'], [i for i, d in enumerate(dirs) if tagged_rows(d, st['tag'])]))
+                    elif op == 'clear' and len(fc) != 0:
+                        bad = fail('postcondition', '%d rows are left' % len(fc))
+                    elif op == 'cull' and case['policy'] != 'none':
+                        still = [i for i, s in enumerate(fc._shards) if len(s) and s.volume() > s.size_limit]
+                        if still:
+                            bad = fail('postcondition', 'shards %r are still above their limit (%r > %r)' % (
+                                still, [fc._shards[i].volume() for i in still], fc._shards[still[0]].size_limit))
+                if bad is not None:
+                    break
+        finally:
+            for c in opened:
+                c.close()
+    shutil.rmtree(top, ignore_errors=True)
+    if own:
+        shutil.rmtree(base, ignore_errors=True)
+    return bad, record
+
+
+def shrink_bulk(case, base, budget=24):
+    bad, _ = run_bulk(case, base)
+    if bad is None:
+        return case, None
+    steps = list(case['steps'])[:bad['at'] + 1]
+    # drop earlier bulk removals first, then halves of the writes, then single writes
+    i = len(steps) - 2
+    while i >= 0 and budget > 0:
+        if steps[i]['op'] != 'set' or budget > 12:
+            trial = steps[:i] + steps[i + 1:]
+            budget -= 1
+            b, _ = run_bulk(dict(case, steps=trial), base)
+            if b is not None and b['kind'] == bad['kind'] and b['op'] == bad['op']:
+                steps, bad = trial, b
+        i -= 1
+    return dict(case, steps=steps), bad
+
+
+def monitor_bulk(ctx, res, ncases, hist):
+    base = ctx.scratch('c13bulk')
+    rng = ctx.rng
+    seen = set()
+    nshrunk = 0
+    stats = {'cases': 0, 'calls': {}, 'calls_with_a_shard_over_its_share': 0, 'calls_compared_with_one_cache': 0, 'items_removed': 0, 'scenarios': {}}
+    probe = diskcache.Cache(ctx.scratch('c13bk'))
+    disk = probe.disk
+    probe.close()
+    for cno in range(ncases):
+        n = SHARD_COUNTS[(cno + 3) % len(SHARD_COUNTS)]
+        case = gen_bulk_case(rng, n, disk)
+        try:
+            bad, record = run_bulk(case, base)
+        except Exception as e:  # noqa: BLE001  (a bulk removal or a write of the case raised: reported, not a crash of the check)
+            sig = 'bulk_removal_raised:%s' % type(e).__name__
+            if sig not in seen:
+                seen.add(sig)
+                res.violations.append(fw.Violation(sig, 'writes and bulk removals on %d shards (policy %s, size_limit %d) raised %r' % (
+                    n, case['policy'], case['size_limit'], e), case))
+            continue
+        res.count(['bulk', n, case['policy'], case['cull_limit'], case['size_limit'], case['keys_hex'], case['steps']], nontrivial=any(r[1][0] == 'val' and r[1][1] for r in record))
+        stats['cases'] += 1
+        stats['scenarios'][case['scenario']] = stats['scenarios'].get(case['scenario'], 0) + 1
+        for (op, a, b, c1, left, over) in record:
+            stats['calls'][op] = stats['calls'].get(op, 0) + 1
+            stats['calls_with_a_shard_over_its_share'] += bool(over)
+            stats['calls_compared_with_one_cache'] += c1 is not None
+            stats['items_removed'] += a[1] if a[0] == 'val' and isinstance(a[1], int) else 0
+        if cno == 0:
+            res.sample({'bulk_removal_case': {k: case[k] for k in ('shards', 'scenario', 'policy', 'cull_limit', 'size_limit')},
+                        'calls': [(op, repr(a), repr(b), repr(c1)) for (op, a, b, c1, left, over) in record]})
+        if bad is not None:
+            sig = 'bulk_removal:%s:%s' % (bad['op'], bad['kind'])
+            if sig in seen:
+                continue
+            seen.add(sig)
+            if nshrunk < 2:
+                nshrunk += 1
+                small, sbad = shrink_bulk(case, base)
+                if sbad is not None:
+                    case, bad = small, sbad
+            res.violations.append(fw.Violation(sig, bad['why'], dict(case, failure=bad)))
+    hist['bulk'] = stats
+
+
+# ---------------------------------------------------------------------------
 # settings seen through two handles: changing or reloading a setting covers every shard
 
 
@@ -1365,7 +1621,13 @@ def run(ctx, big=False):
                 'directory, reset(key, value) / reset(key) / stats(enable, reset) on statistics, cull_limit, eviction_policy, size_limit through '
                 'either handle interleaved with writes, lookups, len, iteration and expire(), compared step by step with two handles on one '
                 'unsharded Cache driven by the same steps and with the documented meaning of reset (the value stored last is what a reload '
-                'returns); after every reset the setting must be the same on every shard of the handle.  (2) every key of a fixed list stored on every shard count: the NNN directory whose cache.db '
+                'returns); after every reset the setting must be the same on every shard of the handle.  (1c) bulk removals under the virtual clock: '
+                'writes with expiry times and tags, inline values and values kept in files, spread over the shards or skewed towards one or two of them '
+                '(so that a shard exceeds size_limit / shards while the total volume stays below size_limit), with every eviction policy, cull_limit 0 or 10, '
+                'then cull() / expire() / evict(tag) / clear() with retry on and off: returned count, len and key set compared with one diskcache.Cache per '
+                'shard (each with size_limit / shards, the key sent to the one its routing names) and, while nothing is removed for its size, with ONE '
+                'Cache holding the whole limit; on the FanoutCache\'s own shards: count = rows that disappeared, no row past its expiry time left after cull / expire, '
+                'no tagged row after evict, none after clear, no shard above its share after cull.  (2) every key of a fixed list stored on every shard count: the NNN directory whose cache.db '
                 'receives the row is %03d of Disk.hash % shards; the list hashed and written/read in 4 fresh interpreters with different PYTHONHASHSEED '
                 'and compared with fixtures/routing.json.  (3) model hash/shard/shard_dir/shard_size_limit/shard_limit_passed/adler32 against the implementation.  '
                 'non-trivial = history with more than 5 executed operations, placement with more than one shard; distinct = distinct case content.')
@@ -1379,6 +1641,7 @@ def run(ctx, big=False):
         nhist, nops = 2400, 70
     monitor_equivalence(ctx, res, nhist, nops, hist, modelcases)
     monitor_settings(ctx, res, (90 if big else 60) if ctx.quick else 400, 30, hist)
+    monitor_bulk(ctx, res, (60 if big else 40) if ctx.quick else 300, hist)
     keys = fixed_keys() + FINDING_KEYS + NAN_KEYS
     if thorough:
         keys = keys + [ctx.rng.randrange(-2 ** 63, 2 ** 63) for _ in range(60)] + \
@@ -1399,7 +1662,7 @@ def run(ctx, big=False):
                       'histories_by_stream': hist['streams'], 'key_class_histogram': hist['key_classes'],
                       'optional_parameter_variants': hist['variants'], 'two_handle_settings_steps': hist['settings_steps'],
                       'keys_per_shard': hist['keys_per_shard'], 'placements': hist['placements'], 'injected_timeouts': hist['faults'],
-                      'interpreters': hist.get('interpreters', 0), 'exhaustive': False})
+                      'interpreters': hist.get('interpreters', 0), 'bulk_removals': hist.get('bulk', {}), 'exhaustive': False})
     return res
 
 
@@ -1415,6 +1678,13 @@ def replay(payload):
         for (op, a) in record:
             print('  %-9s -> %r' % (op, a))
         print('history on %d shards: %s' % (case['shards'], 'agrees with one cache' if bad is None else bad['why']))
+        return bad is None
+    if kind == 'bulk':
+        bad, record = run_bulk(case)
+        for (op, a, b, c1, left, over) in record:
+            print('  %-7s FanoutCache -> %r, one Cache per shard -> %r, a single Cache -> %s; %d keys left; shards over their share before the call: %r' % (
+                op, a, b, 'not compared' if c1 is None else repr(c1), left, over))
+        print('bulk removals on %d shards: %s' % (case['shards'], 'cover every shard, each against its share' if bad is None else bad['why']))
         return bad is None
     if kind == 'settings':
         bad, record = run_settings(case)
